@@ -92,3 +92,17 @@ def run(F, R):
         have = {m[0] for m in i["methods"]}
         R.check(JSON_VISITS <= have, "R15.3", "Visitor:%s:kinds" % re.sub(r"\{impl#\d+\}", "{impl}", i["def"]), "%s:%s" % (i["file"], i["line"]),
                 "overrides %d visit_* methods" % len(have), "visitor lacks %s" % sorted(JSON_VISITS - have))
+
+    R.rule("R15.4", "number kinds survive JSON deserialisation: the visit_f64 of the Value / ConstValue Deserialize visitors builds its Number with "
+                    "Number::from_f64 and nothing else (no float-to-integer cast, no integer constructor) — 2.0 must come back as the float 2.0, not the integer 2")
+    n4 = 0
+    for b in F.find(r"^async_graphql_value::value_serde::.*::visit_f64$", kind="fn"):
+        n4 += 1
+        cone = [x for x in F.cone([b], stop=lambda x: not x.defp.startswith("async_graphql_value::")) if x.defp.startswith("async_graphql_value::")]
+        f64s = [c for x in cone for c in x.calls() if c.callee and re.search(r"serde_json::number::\{impl#\d+\}::from_f64$|Number::from_f64$", c.callee)]
+        ints = [c for x in cone for c in x.calls() if c.callee and re.search(r"serde_json::number::\{impl#\d+\}::from$", c.callee) and c.argtys and re.search(r"^(i|u)(8|16|32|64|size)$", c.argtys[0])]
+        casts = [st for x in cone for bb, st in x.all_stmts() if st[1][0] == "cast" and "FloatToInt" in str(st[1])]
+        key = re.sub(r"\{impl#\d+\}", "{impl}", b.defp.replace("async_graphql_value::value_serde::", ""))
+        R.check(bool(f64s) and not ints and not casts, "R15.4", "visit_f64:builds-a-float-number:" + key, b.where(), "Number::from_f64 only",
+                "visit_f64 can build an integer Number (%d integer constructors, %d float->int casts in its cone): integral floats change kind on the JSON round trip" % (len(ints), len(casts)))
+    R.floor("R15.4", "visit_f64 visitors", n4, 2)
